@@ -29,9 +29,9 @@ func specExpandBackrefs(input string, groups []string) (string, bool) {
 // asked of the same cache before (coherence of the one piece of shared mutable state of a definition).
 func TestVerif_C03C09_BackrefCache(t *testing.T) {
 	res := &verifResult{Check: "BackrefRegex cache", Property: "C03 C09", Exhaustive: true,
-		Bound: "patterns {\\1, \\2, <\\1>\\2, \\\\1, a\\1+}; group lists of length 1-3 over {\"a\", \"b\", \"a\\x00b\", \"a\\x00\", \"\", \".\", \"(\"}; every ordered pair of calls on one shared cache",
+		Bound: "patterns {\\1, \\2, <\\1>\\2, \\\\1, a\\1+, \\0, \\0-\\1}; two values of group 0; group lists of length 1-3 over {\"a\", \"b\", \"a\\x00b\", \"a\\x00\", \"\", \".\", \"(\"}; every ordered pair of calls on one shared cache",
 		Rule: "ordered pairs of (pattern, groups) calls on one cache; non-trivial = both succeed and the two expansions differ"}
-	patterns := []string{`\1`, `\2`, `<\1>\2`, `\\1`, `a\1+`}
+	patterns := []string{`\1`, `\2`, `<\1>\2`, `\\1`, `a\1+`, `\0`, `\0-\1`}
 	atoms := []string{"a", "b", "a\x00b", "a\x00", "", ".", "("}
 	var groupLists [][]string
 	for _, a := range atoms {
@@ -40,7 +40,7 @@ func TestVerif_C03C09_BackrefCache(t *testing.T) {
 			groupLists = append(groupLists, []string{"whole", a, b})
 		}
 	}
-	groupLists = append(groupLists, []string{"whole"})
+	groupLists = append(groupLists, []string{"whole"}, []string{"other"}, []string{"other", "a"}, []string{"other", "a", "b"})
 	type call struct {
 		pat    string
 		groups []string
